@@ -13,8 +13,11 @@ sed "s|@REPO@|$REPO|" "$HERE/Cargo.toml.in" > "$WORK/Cargo.toml"
 cp /repo/Cargo.lock "$WORK/Cargo.lock" 2>/dev/null || true
 export CARGO_TARGET_DIR=${PQ_CEX_TARGET:-$WORK/target} CARGO_NET_OFFLINE=true
 mkdir -p "$CARGO_TARGET_DIR"
+export CARGO_INCREMENTAL=0
 (
   flock 9
+  # every tree the program is built against leaves its own artifacts of the crate behind: keep the shared cache small
+  if [ "$(du -sm "$CARGO_TARGET_DIR" 2>/dev/null | cut -f1)" -gt 2500 ] 2>/dev/null; then find "$CARGO_TARGET_DIR" -mindepth 1 -maxdepth 1 ! -name '.pq-cex.lock' -exec rm -rf {} +; fi
   rm -f "$CARGO_TARGET_DIR/debug/pq-cex"
   (cd "$WORK" && cargo build --offline -q 2>&1 | grep -E "^error" -A8 | head -20)
   [ -x "$CARGO_TARGET_DIR/debug/pq-cex" ] && cp "$CARGO_TARGET_DIR/debug/pq-cex" "$WORK/pq-cex"
